@@ -295,7 +295,16 @@ def discharge(obls, jobs=None, log=None):
         txt = texts[id(o)]
         backends = ('z3new', 'z3old', 'cvc5')
         if 'String' in txt or 'Seq' in txt:
-            backends = ('z3new', 'cvc5')
+            # strings: z3 refutes quickly, cvc5 proves what z3 leaves open -- short z3 budget first, then cvc5
+            v0, model0, be0, secs0, raw0 = solve_smt2(txt, timeout=min(o.timeout, 6), backends=('z3new',))
+            if v0 in ('sat', 'unsat'):
+                o.seconds, o.backend = secs0, be0
+                if v0 == 'unsat':
+                    o.status = 'discharged'
+                else:
+                    o.status, o.model, o.detail = 'refuted', model0, raw0
+                return o
+            backends = ('cvc5', 'z3new')
         cand = None
         ab = abstr.get(id(o))
         spent = 0.0
